@@ -41,6 +41,16 @@ CHECKS = {
             'Every case executed and every number compared: GULP rows/header/grid, ADP setfl prefix + unscaled u/w blocks with zero-fill in header order, funcfl header grid and Z(r)^2 back-conversion, Excel first column and every labelled cell.',
             'Trusted: format rules encoded in mc/readers, openpyxl reader, reference closed forms.',
             'DESIGN.md 4/C19'),
+    'C06': (E1, 'exploration',
+            'exhaustive evaluation of every point of per-form parameter lattices x separation lattice through all four access routes on the real code, compared with independently written documented closed forms',
+            'All 15 forms, every lattice point (negative/zero/small/large/fractional/integer-typed parameters, polynomial orders 0..8, every zero pattern of Tang-Toennies coefficients) is evaluated through f(r,p), factory, as.NAME in [Pair] and as.NAME(r,..) in a formula (literal and positionally bound); parameter vectors with pairwise distinct components make any binding swap visible.',
+            'Trusted: the closed forms in mc/refmodel/forms.py (docs), constants of coul/zbl/Tang-Toennies as in DESIGN 2.3. Lattices, not all reals.',
+            'DESIGN.md 4/C06'),
+    'C07': (E1, 'exploration',
+            'bounded exhaustive enumeration of expression trees (depth <= 2, thorough 3) over 22 leaves x combinators through the Python API and the potable language, every tree evaluated on a separation lattice; oracle = second-order forward-mode AD jets of the reference model with a propagated finite-difference error model',
+            'Every tree of the stated space is built on the real code; where deriv/deriv2 are offered they are compared with exact jets; offered-ness follows the documented rule; exceptions from deriv where the energy is defined are violations.',
+            'Trusted: AD jets of the documented formulas; documented numerical fallback h=1e-6 and its rounding-error model (DESIGN 2.5).',
+            'DESIGN.md 4/C07'),
 }
 
 NOT_YET = 'check not built yet in this revision of /verif (bounded exhaustive exploration applies; see DESIGN.md section 4)'
